@@ -214,4 +214,26 @@ def removeBy (hist : List Rec) (epoch ts proposer : Nat) (old : Option Nat) : Op
   | .pass => checkRemove hist epoch proposer ts old
   | _ => none
 
+/-! ## the time a snapshot is validated at -/
+
+/-- The first statement of all six operation-snapshot validators (`validateMintSnapshot`,
+    `validateNodePledgeSnapshot`, `validateNodeCancelSnapshot`, `validateNodeAcceptSnapshot`,
+    `validateNodeRemoveSnapshot`, `validateCustodianUpdateNodes`):
+    `timestamp := s.Timestamp; if s.Timestamp == 0 && s.NodeId == node.IdForNetwork { timestamp = clock.NowUnixNano() }`.
+    `self` is the validating node's id, `clock` its wall clock. -/
+def opTime (self clock snapNode snapTs : Nat) : Nat :=
+  if snapTs = 0 ∧ snapNode = self then clock else snapTs
+
+/-- `validateNodePledgeSnapshot` up to its gates, on a snapshot `(snapNode, snapTs)` -/
+def pledgeGateSnap (self clock : Nat) (hist : List Rec) (epoch snapNode snapTs : Nat) : Gate :=
+  pledgeGate hist epoch (opTime self clock snapNode snapTs) snapNode
+
+/-- `validateCustodianUpdateNodes` up to its gates, on a snapshot `(snapNode, snapTs)` -/
+def custodianGateSnap (self clock : Nat) (hist : List Rec) (epoch snapNode snapTs : Nat) : Gate :=
+  custodianGate hist epoch (opTime self clock snapNode snapTs) snapNode
+
+/-- `validateNodeCancelSnapshot` (finalized) up to its gates, on a snapshot `(snapNode, snapTs)` -/
+def cancelGateSnap (self clock : Nat) (hist : List Rec) (epoch snapNode snapTs : Nat) : Gate :=
+  cancelGate hist epoch (opTime self clock snapNode snapTs)
+
 end Mixin.Election
